@@ -4,6 +4,18 @@ import vlib, progsuite
 from gen import proggen
 
 
+def _binary_tokens():
+    try:
+        t = json.load(open(vlib.WORK + '/tables.json'))['parse']['get_definition']
+        return {k for k, v in t.items() if v[1] in ('BinaryLeftToRight', 'BinaryRightToLeft', 'OptionalBinaryLeftToRight')}
+    except Exception:
+        return set()
+
+
+BINARY_TOKENS = set()
+TRIVIA = ('Whitespace', 'Annotation', 'LineAnnotation')
+
+
 def lex_tokens(result):
     """tokens of a LEX result line: [(type, text)]"""
     if not result or not result.startswith('ok'):
@@ -53,6 +65,26 @@ def rewrites(rnd, toks, every_position):
         for i in (closes if every_position else closes[:1]):
             out.append(('pad-before-closer', join({i: ' ' + toks[i][1]})))
             out.append(('tab-before-closer', join({i: '\t' + toks[i][1]})))
+    # spaces added or removed around binary operators and commas (none -> some, some -> none): applicable only where the
+    # edit leaves the significant tokens unchanged (`a.5` -> `a .5` turns `.` `5` into the number `.5`; `- -` -> `--`), which
+    # the caller verifies by lexing the variant (kind ends in `?`)
+    ops = [i for i, (ty, tx) in enumerate(toks) if ty in BINARY_TOKENS]
+    for i in (ops if every_position else rnd.sample(ops, min(2, len(ops)))):
+        if i > 0 and toks[i - 1][0] not in ('Whitespace', 'Subexpression'):
+            out.append(('space-before-operator?', join({i: ' ' + toks[i][1]})))
+        if i + 1 < len(toks) and toks[i + 1][0] not in ('Whitespace', 'Subexpression'):
+            out.append(('space-after-operator?', join({i: toks[i][1] + ' '})))
+        if i > 1 and toks[i - 1][0] == 'Whitespace' and '\n' not in toks[i - 1][1]:
+            out.append(('no-space-before-operator?', join({i - 1: ''})))
+        if i + 2 < len(toks) and toks[i + 1][0] == 'Whitespace' and '\n' not in toks[i + 1][1]:
+            out.append(('no-space-after-operator?', join({i + 1: ''})))
+    if ops:
+        edit = {}
+        for i in ops:
+            if i > 1 and toks[i - 1][0] == 'Whitespace' and '\n' not in toks[i - 1][1]: edit[i - 1] = ''
+            if i + 2 < len(toks) and toks[i + 1][0] == 'Whitespace' and '\n' not in toks[i + 1][1]: edit[i + 1] = ''
+        if edit:
+            out.append(('no-space-around-any-operator?', join(edit)))
     text = join({})
     out.append(('trailing-space', text + '  '))
     out.append(('trailing-tab-newline', text + ' \t\n'))
@@ -86,6 +118,8 @@ def run(ctx):
     rnd = random.Random(ctx.seed + 18)
     if not h_ok:
         return
+    global BINARY_TOKENS
+    BINARY_TOKENS = _binary_tokens()
     progs = progsuite.gen_programs(ctx, 1200 if ctx.tier == 'quick' else 20000, 1)
     # programs with pure side-effect blocks hung on atoms (after the atom, or in front of it after an operator / comma) are
     # bases of their own, so that the layout rewrites also act inside and around blocks
@@ -100,6 +134,7 @@ def run(ctx):
     lexed = vlib.run_impl(lexcases, 'c18lex', per_case_s=5.0)
     cases = []
     groups = []      # (original case id, [(kind, variant case id)])
+    pending = []     # variants whose applicability (significant tokens unchanged) is checked by lexing them first
     def add(src, store, inp):
         cid = str(len(cases))
         cases.append(['RUN', cid, store, vlib.esc(src), inp, progsuite.HOSTS[1]])
@@ -117,12 +152,27 @@ def run(ctx):
         if ctx.tier == 'quick' and stream in ('pairs', 'logic', 'loops') and i % 4 != 0:
             continue
         for kind, text in rewrites(rnd, toks, every_position=(stream.startswith('small') or stream == 'blocks-small' or ctx.tier == 'thorough')):
-            vs.append((kind, add(text, store, inp), True))
+            if kind.endswith('?'):
+                pending.append((len(groups), kind[:-1], text, store, inp, [t for t in toks if t[0] not in TRIVIA]))
+            else:
+                vs.append((kind, add(text, store, inp), True))
         # wrapping complete operands in parentheses / adding pure side-effect blocks change the tree only by group / block nodes
         if root is not None:
             vs.append(('extra-parens', add(proggen.pp(root, rnd), store, inp), False))
             vs.append(('pure-side-effect-blocks', add(proggen.pp(add_pure_blocks(rnd, root)), store, inp), False))
         groups.append((base, vs, src))
+    if pending:
+        pl = vlib.run_impl([['LEX', 'v%d' % k, vlib.esc(p[2])] for k, p in enumerate(pending)], 'c18lexv', per_case_s=5.0)
+        napp = 0
+        for k, (gi, kind, text, store, inp, sig) in enumerate(pending):
+            vt = lex_tokens(pl.get('v%d' % k))
+            if vt is None or [t for t in vt if t[0] not in TRIVIA] != sig:
+                continue        # the edit changes the tokens: not a place where whitespace / none is allowed
+            napp += 1
+            groups[gi][1].append((kind, add(text, store, inp), True))
+        skipped_not_applicable = len(pending) - napp
+    else:
+        skipped_not_applicable = 0
     ctx.evaluations = len(cases)
     impl = vlib.run_impl(cases, 'c18', per_case_s=5.0)
     kinds = {}
@@ -143,9 +193,9 @@ def run(ctx):
                 ctx.fail('oracle', c, impl=impl.get(vid), model=None, expect=impl.get(bid), note=f'rewrite `{kind}` changed the result; original source {src!r}')
             elif same_stream and impl.get(vdump) != bd:
                 ctx.fail('oracle', cases[int(vdump)], impl=impl.get(vdump), model=None, expect=bd, note=f'rewrite `{kind}` changed the built instruction stream (the parse tree differs by more than trivia); original source {src!r}')
-    ctx.rule = ('every generated core-language program (small-exhaustive + random) x rewrites: add a space / a tab to an existing whitespace token (every position for small programs), double all spaces, insert an annotation or a comment line where whitespace is, add spaces/tabs before and inside a blank line, leading / trailing whitespace, a space or tab just inside a bracket where none was (after `(` `[` `{`, before `)` `]` `}`), the same rewrites on programs that carry pure side-effect blocks after atoms and in front of operands, '
+    ctx.rule = ('every generated core-language program (small-exhaustive + random) x rewrites: add a space / a tab to an existing whitespace token (every position for small programs), double all spaces, insert an annotation or a comment line where whitespace is, add spaces/tabs before and inside a blank line, leading / trailing whitespace, a space added or removed on either side of a binary operator or comma where the edit leaves the tokens unchanged (checked by lexing the variant), a space or tab just inside a bracket where none was (after `(` `[` `{`, before `)` `]` `}`), the same rewrites on programs that carry pure side-effect blocks after atoms and in front of operands, '
                 'wrap complete operands in parentheses (printer option), hang pure side-effect blocks on atoms; oracle: identical result value and host-call trace, and for whitespace/annotation rewrites an identical built instruction stream; distinct = distinct (rewrite kind, rewritten source).')
-    ctx.suites = {'RUN+DUMP': len(cases), 'rewrites': kinds}
+    ctx.suites = {'RUN+DUMP': len(cases), 'rewrites': kinds, 'operator-spacing edits skipped because they change the tokens': skipped_not_applicable}
     ctx.distribution = progsuite.feature_distribution([p for p in progs if p[2] is not None])
     for (bid, bdump), vs, src in groups[:: max(1, len(groups) // 5)][:5]:
         ctx.sample({'source': src, 'variant': vlib.unesc(cases[int(vs[0][1][0])][3]), 'kind': vs[0][0], 'result': impl.get(bid)}, cap=80)
